@@ -121,9 +121,11 @@ func c09Cliques(N int) {
 		// AllMaximalCliques: each maximal clique exactly once
 		ch := make(chan []int, (1<<uint(n))+1)
 		AllMaximalCliques(g, ch)
+		got, closed := vgDrain(ch)
+		rt.Check(closed, "AllMaximalCliques returned without closing its channel")
 		seen := make([]int, 1<<uint(n))
 		cnt := 0
-		for c := range ch {
+		for _, c := range got {
 			mask := 0
 			for _, v := range c {
 				ok := v >= 0 && v < n
@@ -699,10 +701,12 @@ func c09CliqueWithTrees(n, k int, full bool, cores [][]int) {
 			if full {
 				ch := make(chan []int, 2*n+2)
 				AllMaximalCliques(g, ch)
-				mc := 0
-				for range ch {
-					mc++
+				got, closed := vgDrain(ch)
+				if !closed {
+					rt.Fail("AllMaximalCliques returned without closing its channel")
+					return
 				}
+				mc := len(got)
 				if mc != 1+r {
 					rt.Fail("AllMaximalCliques: wrong number of maximal cliques on a clique with trees attached")
 					return
